@@ -22,6 +22,8 @@ MANIFEST = {
             "models every ConfigSchema default, the push-down of every from_config, padding/truncation and Python truthiness; "
             "every object built from an accepted observation_space section satisfies the invariant the in-space theorems need "
             "(C02_raw_build_ok), so membership holds for everything a scenario can configure (C02_built_run_in_space). "
+            "NMNE (since the F-10 repair): the leaf follows the observed interface's own `nmne` entry, so no state is excluded on "
+            "its account any more - the only state hypotheses left are positive NIC speed / link bandwidth and a user-session-manager. "
             "Environment level: nested or flattened, every observation of an episode is a member of the space observation_space "
             "declares during THAT episode, the space does not change within an episode, and a constant schedule declares one space "
             "(C02_env_*); flattening a member gives a 0/1 vector whose length is a function of the space only. "
@@ -129,25 +131,24 @@ def flatten_probe(sp, value, want=None):
 def component_case(rng: Rng, n_states: int, defects: bool, invalid: bool = False) -> dict:
     """Build one real object tree from a generated scenario-style configuration, feed it a sequence of synthetic states; the model
     builds ITS object from the same configuration text (`rawcfg`).  Returns everything needed for the diff."""
-    capture = rng.chance(1, 2)
-    rig.set_capture(capture)
+    capture = None  # no process-wide switch any more (F-10 repaired): each generated interface state decides by its own `nmne` entry
     obj, facts = rig.gen_object(rng, defects, invalid)
     ev = rig.enum_values()
     osp, th = rig.split_cfg(facts["cfg"])
-    lines = ["reset", f"capture {rig.B(capture)}", rig.rawcfg_line(osp, th), "show", "space", "flatdim", "default"]
+    lines = ["reset", rig.rawcfg_line(osp, th), "show", "space", "flatdim", "default"]
     if obj is None:
-        return {"capture": capture, "facts": facts, "lines": lines[:3], "impl": ["ok", "ok", "rejected"], "space": None, "states": [],
+        return {"capture": capture, "facts": facts, "lines": lines[:2], "impl": ["ok", "rejected"], "space": None, "states": [],
                 "rejected": getattr(rig.build_impl, "last_error", "?"), "tree": [], "defaults_changed": []}
     sp = obj.space
     cspace = rig.canon_space(sp)
     nodes = rig.walk(obj)
     before = {path: rig.canon(o.default_observation) for path, o in nodes}
     flat_dim, flat_bad = flatten_probe(sp, obj.default_observation)
-    impl: List[Any] = ["ok", "ok", "ok", " ".join(rig.obj_tokens(obj, fresh=True)), cspace, flat_dim,
+    impl: List[Any] = ["ok", "ok", " ".join(rig.obj_tokens(obj, fresh=True)), cspace, flat_dim,
                        (rig.canon(obj.default_observation), bool(sp.contains(obj.default_observation)), None, False)]
     states = []
     for _ in range(n_states):
-        st = rig.gen_state(rng, ev, capture, list((facts["mt"] or {}).keys()), sorted({q for v in (facts["mt"] or {}).values() for q in v}),
+        st = rig.gen_state(rng, ev, list((facts["mt"] or {}).keys()), sorted({q for v in (facts["mt"] or {}).values() for q in v}),
                            facts["ips"], facts["stray_ip"], slots=24)
         states.append(st)
         toks, pairs = rig.state_tokens(st)
@@ -213,7 +214,7 @@ def token_diff(a: str, b: str) -> str:
     return f"lengths {len(x)} vs {len(y)}"
 
 
-SPACE_AT, FLAT_AT, DEFAULT_AT, FIRST_OBS = 4, 5, 6, 7
+CFG_AT, SHOW_AT, SPACE_AT, FLAT_AT, DEFAULT_AT, FIRST_OBS = 1, 2, 3, 4, 5, 6
 
 
 def check_case(ctx: Ctx, name: str, case: dict, model: List[str]) -> bool:
@@ -222,20 +223,20 @@ def check_case(ctx: Ctx, name: str, case: dict, model: List[str]) -> bool:
     agree = True
     cfg = case["facts"]["cfg"]
     # construction: accepted / rejected by both
-    if impl[2] != model[2]:
+    if impl[CFG_AT] != model[CFG_AT]:
         ctx.violation({"kind": "model-vs-impl", "what": "construction accepted/rejected"},
-                      f"{name}: constructing the observation from the configuration: implementation {impl[2]} ({case.get('rejected', '')}), model {model[2]}",
+                      f"{name}: constructing the observation from the configuration: implementation {impl[CFG_AT]} ({case.get('rejected', '')}), model {model[CFG_AT]}",
                       {"case": name, "cfg": cfg})
         return False
-    ctx.count("component:construction-" + impl[2])
-    if impl[2] == "rejected":
+    ctx.count("component:construction-" + impl[CFG_AT])
+    if impl[CFG_AT] == "rejected":
         return True
     # the object the model builds from the scenario's words is the object the implementation built
-    if impl[3] != model[3]:
+    if impl[SHOW_AT] != model[SHOW_AT]:
         agree = False
         ctx.violation({"kind": "construction-vs-scenario", "what": "constructed object differs from from_config(model) of the scenario", "class": "component"},
-                      f"{name}: the constructed observation objects are not what the configuration says: {token_diff(impl[3], model[3])}",
-                      {"case": name, "cfg": cfg, "diff": token_diff(impl[3], model[3])})
+                      f"{name}: the constructed observation objects are not what the configuration says: {token_diff(impl[SHOW_AT], model[SHOW_AT])}",
+                      {"case": name, "cfg": cfg, "diff": token_diff(impl[SHOW_AT], model[SHOW_AT])})
     # the property's oracle on every object of the tree
     for b in case["tree"]:
         ctx.violation(dict(b.get("sig") or {"kind": "tree-oracle", "class": b["class"], "check": b["check"]}, property_oracle=b["check"]),
@@ -300,6 +301,8 @@ def env_recipes(ctx: Ctx, rng: Rng, truth: bool = False) -> List[dict]:
     eps, steps = ctx.scale(2, 3), ctx.scale(30 if truth else 20, 60)
 
     def add(family, label, **kw):
+        # one recipe in five runs under the process-wide override `NetworkInterface.nmne_config = NMNEConfig(...)` (restored afterwards)
+        kw.setdefault("nmne_override", rig.gen_nmne_settings(rng) if rng.chance(1, 5) else None)
         out.append(dict({"family": family, "label": label, "traj_seed": rng.next(), "variant_seed": rng.next(), "episodes": eps, "steps": steps,
                          "truth": truth, "chaos": False}, **kw))
     for rel in scen:
@@ -348,6 +351,9 @@ def run_env_recipes(ctx: Ctx, recipes: List[dict], chaos=None) -> List[Tuple[str
                 ctx.notes.append(f"{rc['label']}: {type(e).__name__}: {str(e)[:160]}")
             continue
         runs.append((rc["label"], res))
+    from primaite.simulator.network.hardware.base import NetworkInterface
+    ctx.oblige("rig: process-wide NetworkInterface.nmne_config is None again after the recipes", "correspondence", NetworkInterface.nmne_config is None,
+               repr(NetworkInterface.nmne_config))
     return runs
 
 
@@ -355,7 +361,6 @@ def run_env_recipes(ctx: Ctx, recipes: List[dict], chaos=None) -> List[Tuple[str
 def run_corpus_case(rec: dict) -> Tuple[bool, str]:
     """A corpus witness: constructor config + capture flag + one state. Returns (observation is in the space, detail)."""
     from primaite.game.agent.observations.observation_manager import ObservationManager
-    rig.set_capture(bool(rec.get("capture", False)))
     import copy
     mgr = ObservationManager(config=copy.deepcopy(rec["cfg"]))
     obj = mgr.obs
@@ -376,23 +381,22 @@ def _intkeys(x):
     return x
 
 
-def construction_agrees(cfg: dict, capture: bool = False) -> Tuple[bool, str]:
+def construction_agrees(cfg: dict, capture: bool = False) -> Tuple[bool, str]:  # `capture`: ignored (old replay records carry it)
     """Is the object the implementation builds from this manager configuration the one the model builds from the same words
     (both reject, or the same object tokens, space and default observation)?"""
-    rig.set_capture(capture)
     obj = rig.build_impl(cfg)
     osp, th = rig.split_cfg(cfg)
-    out = run_driver(EXE, ["reset", f"capture {rig.B(capture)}", rig.rawcfg_line(osp, th), "show", "space", "default"])
+    out = run_driver(EXE, ["reset", rig.rawcfg_line(osp, th), "show", "space", "default"])
     if obj is None:
-        return out[2] == "rejected", f"implementation rejects ({getattr(rig.build_impl, 'last_error', '?')}), model: {out[2]}"
-    if out[2] != "ok":
-        return False, f"implementation accepts, model: {out[2]}"
+        return out[1] == "rejected", f"implementation rejects ({getattr(rig.build_impl, 'last_error', '?')}), model: {out[1]}"
+    if out[1] != "ok":
+        return False, f"implementation accepts, model: {out[1]}"
     toks = " ".join(rig.obj_tokens(obj, fresh=True))
-    if toks != out[3]:
-        return False, token_diff(toks, out[3])
-    if rig.parse_val(out[4].split()) != rig.canon_space(obj.space):
-        return False, "space differs: " + str(rig.first_diff(rig.canon_space(obj.space), rig.parse_val(out[4].split())))
-    mv, _ = parse_report(out[5])
+    if toks != out[2]:
+        return False, token_diff(toks, out[2])
+    if rig.parse_val(out[3].split()) != rig.canon_space(obj.space):
+        return False, "space differs: " + str(rig.first_diff(rig.canon_space(obj.space), rig.parse_val(out[3].split())))
+    mv, _ = parse_report(out[4])
     if mv != rig.canon(obj.default_observation):
         return False, "default observation differs: " + str(rig.first_diff(rig.canon(obj.default_observation), mv))
     return True, "same object"
@@ -400,7 +404,6 @@ def construction_agrees(cfg: dict, capture: bool = False) -> Tuple[bool, str]:
 
 def replay_component(r: dict) -> bool:
     """a component-level record (generated configuration + capture flag + the state sequence): re-run the property's oracle"""
-    rig.set_capture(bool(r.get("capture", False)))
     ev = rig.enum_values()
     if tree_oracle(r["cfg"], ev):
         return False
@@ -507,7 +510,7 @@ def component_family(ctx: Ctx):
         length_relations(ctx, c["facts"]["cfg"])
         if check_case(ctx, name, c, model_all[st:st + ln]):
             agree += 1
-            ctx.sample({"case": name, "model_lines": [l[:160] for l in c["lines"][2:7]], "answers": [m[:160] for m in model_all[st + 2:st + 7]]}, cap=2)
+            ctx.sample({"case": name, "model_lines": [l[:160] for l in c["lines"][1:6]], "answers": [m[:160] for m in model_all[st + 1:st + 6]]}, cap=2)
     ctx.oblige("rig:R-obs components agree on every case", "correspondence", agree == len(cases), f"{len(cases) - agree} of {len(cases)} cases disagree")
     ctx.notes.append(f"component level: {len(cases)} object trees, {sum(len(c['states']) for _, c in cases)} observe calls, {time.time() - t0:.1f}s")
 
@@ -534,7 +537,7 @@ def run(ctx: Ctx):
         ctx.extract(x_cfg.GEN_NAME, x_cfg.emit)
         ctx.prove(MODULES, exes=[EXE], clean=False, leanchecker=ctx.thorough)
     ctx.cov["rule"] = ("component cases = (real observation tree built by ObservationManager from a generated scenario-style configuration - explicit "
-                       "lists shorter/equal/longer than their counts, per-node overrides, ACL sub-configs, rejected configurations - , capture flag, "
+                       "lists shorter/equal/longer than their counts, per-node overrides, ACL sub-configs, rejected configurations - , "
                        "sequence of synthetic states over every enum value x counts past the top threshold x absent/off x traffic up to 10x speed); the "
                        "model builds its object from the same configuration text; every object of every tree goes through the default/space/ON-observe "
                        "key-structure oracle; env cases = one recipe (shipped / toggled / regenerated observation space / generated scenario / shipped "
